@@ -2,7 +2,7 @@
    The per-protocol instances C01_<p> are generated and re-proved on every run from the regenerated models. *)
 From Coq Require Import ZArith List Bool.
 Require Import PyIR.Base.Result PyIR.IW.IW PyIR.IW.IWProps PyIR.Engine.Match PyIR.Engine.Render PyIR.Engine.Parse
-               PyIR.Engine.ParseProps PyIR.Engine.RoundTripH PyIR.Proto.Descriptor PyIR.Proto.Model PyIR.Proto.RoundTrip PyIR.Proto.C01.
+               PyIR.Engine.ParseProps PyIR.Engine.RoundTripH PyIR.Engine.ParseM PyIR.Engine.RoundTripM PyIR.Proto.Descriptor PyIR.Proto.Model PyIR.Proto.RoundTrip PyIR.Proto.C01.
 Import ListNotations.
 Open Scope Z_scope.
 
@@ -19,6 +19,41 @@ Theorem C01_engine_fixed_gap : forall tol li lo t syms ds,
   parseH tol li lo t ds = Ok {| p_bits := bits_of t syms; p_norm := li ++ render_data t syms ++ lo; p_syms := syms |}.
 Proof. exact parseH_render_fixed. Qed.
 
+(* engine, Manchester tables [(m, s); (s, m)]: the renderer merges equal neighbouring halves, the last lead-in element
+   with the first half and the last half with the gap; the parser splits them again - for any number of symbols, any
+   perturbation by up to tolerance/4 per duration.  man_table_ok / li_last_ok / lo_merge_ok are decidable window conditions
+   evaluated on each protocol's tables *)
+Theorem C01_engine_manchester_fixed_gap : forall tol m s, 0 <= tol <= 100 -> m * s < 0 -> man_table_ok tol m s = true ->
+  forall li g syms ds,
+  nonzero li -> alternating li -> li_last_ok tol m s li = true ->
+  g < 0 -> g <> PLACEHOLDER -> lo_merge_ok tol m s g = true ->
+  syms <> [] -> Forall (fun i => (i < 2)%nat) syms ->
+  Forall2 (close tol) ds (compress (li ++ render_data (mt m s) syms ++ [g])) ->
+  parseM tol li [g] (mt m s) ds
+  = Ok {| p_bits := bits_of (mt m s) syms; p_norm := compress (li ++ render_data (mt m s) syms ++ [g]); p_syms := syms |}.
+Proof. exact parseM_render_fixed. Qed.
+
+Theorem C01_engine_manchester_period : forall tol m s, 0 <= tol <= 100 -> m * s < 0 -> man_table_ok tol m s = true ->
+  forall li P syms dbody,
+  nonzero li -> alternating li -> li_last_ok tol m s li = true ->
+  0 < P -> P <> PLACEHOLDER ->
+  (2 <= length syms)%nat -> Forall (fun i => (i < 2)%nat) syms ->
+  let body := li ++ render_data (mt m s) syms in
+  let gap := sum_abs body - P in
+  gap < 0 ->
+  Forall2 (close tol) dbody (removelast (compress (body ++ [gap]))) ->
+  0 < P - sum_abs dbody ->
+  parseM tol li [P] (mt m s) (dbody ++ [- (P - sum_abs dbody)])
+  = Ok {| p_bits := bits_of (mt m s) syms; p_norm := compress (body ++ [gap]); p_syms := syms |}.
+Proof. exact parseM_render_period_only. Qed.
+
+(* the premises are satisfiable: RC5's tables at the default tolerance, and a concrete frame *)
+Example C01_manchester_premises_rc5 :
+  man_table_ok 20 889 (-889) = true /\ li_last_ok 20 889 (-889) [889] = true /\
+  parseM 20 [889] [114000] (mt 889 (-889)) [889; -889; 1778; -889; 889; -1778; 889; -105999]
+  = Ok {| p_bits := [true; false; false; true]; p_norm := [889; -889; 1778; -889; 889; -1778; 889; -105999]; p_syms := [1; 0; 0; 1]%nat |}.
+Proof. vm_compute. repeat split; reflexivity. Qed.
+
 (* protocol level: IrProtocolBase.decode on a fresh instance gives back the bit fields that were rendered,
    for every descriptor passing the decidable check rt_ok *)
 Theorem C01_protocol_roundtrip : forall D tol xs,
@@ -31,4 +66,6 @@ Theorem C01_protocol_roundtrip : forall D tol xs,
 Proof. exact c01_generic. Qed.
 
 Print Assumptions C01_engine_fixed_gap.
+Print Assumptions C01_engine_manchester_fixed_gap.
+Print Assumptions C01_engine_manchester_period.
 Print Assumptions C01_protocol_roundtrip.
